@@ -280,3 +280,59 @@ def install_calculate(reg):
                                   ('propagate_necessity_from_node', 'G'): lambda ex, st, args: ex.args['graph'].t,
                                   ('propagate_necessity_from_node', 'nu'): lambda ex, st, args: ex.ghosts['nuN']},
                      props=('C08',)))
+
+
+# ---------------------------------------------------------------------------------------------------
+# C13: prune_unviable_and_unnecessary_nodes
+def prunable(h, n):
+    return z3.And(z3.Or(is_or(h, n), is_and(h, n)), z3.Or(z3.Not(h.f('is_viable', n)), z3.Not(h.f('is_necessary', n))))
+
+
+def install_prune(reg):
+    def requires(c):
+        return [('wf.' + nm, f) for nm, f in wf_graph(c.old, c.graph)]
+
+    def kept(o, h, G, removed):
+        """node list = old node list minus `removed`; edges among the remaining nodes and attackers' references are kept"""
+        n, m, a = A('n!pk'), A('m!pk'), A('a!pk')
+        NL = nodes_l(o, G)
+        return [
+            ('nodes', FA([n], h.cnt(NL, n) == z3.If(removed(n), 0, o.cnt(NL, n)), [h.cnt(NL, n)])),
+            ('edges', FA([n, m], z3.Implies(z3.And(is_node(h, G, n), is_node(h, G, m)),
+                                           z3.And(ch(h, n, m) == ch(o, n, m), pa(h, n, m) == pa(o, n, m))), [ch(h, n, m)])),
+            ('edges2', FA([n, m], z3.Implies(z3.And(is_node(h, G, n), is_node(h, G, m)),
+                                            z3.And(ch(h, n, m) == ch(o, n, m), pa(h, n, m) == pa(o, n, m))), [pa(h, n, m)])),
+            ('attackers', z3.And(list_unchanged(o, h, atts_l(o, G)),
+                                 FA([a, m], z3.Implies(z3.And(is_att(o, G, a), is_node(h, G, m)),
+                                                       z3.And(reached(h, a, m) == reached(o, a, m), entry(h, a, m) == entry(o, a, m))), [reached(h, a, m)]))),
+            ('same-list-objects', z3.And(h.f('nodes', G) == o.f('nodes', G), h.f('attackers', G) == o.f('attackers', G))),
+        ]
+
+    def inv(c: LCtx):
+        o, h, G = c.old, c.h, c.graph
+        return [('wf.' + nm, f) for nm, f in wf_graph(h, G)] + kept(
+            o, h, G, lambda n: z3.And(z3.Select(c.done, VRef(n)) > 0, prunable(o, n), o.cnt(nodes_l(o, G), n) > 0)) + [
+            ('copy-fresh', z3.And(c.it >= o.alloc, c.it < h.alloc, h.own_obj(c.it) == -1))]
+
+    def ensures(c):
+        o, h, G = c.old, c.h, c.graph
+        n = A('n!pe2')
+        return [('wf.' + nm, f) for nm, f in wf_graph(h, G)] + kept(
+            o, h, G, lambda n: z3.And(prunable(o, n), o.cnt(nodes_l(o, G), n) > 0)) + [
+            ('no-prunable-node-remains', FA([n], z3.Implies(is_node(h, G, n), z3.Not(prunable(h, n))), [h.cnt(nodes_l(h, G), n)])),
+            ('every-other-node-remains', FA([n], z3.Implies(z3.And(is_node(o, G, n), z3.Not(prunable(o, n))), is_node(h, G, n)),
+                                            [o.cnt(nodes_l(o, G), n)])),
+        ]
+
+    reg.add(Contract(MP + ':prune_unviable_and_unnecessary_nodes', {'graph': Obj(GRAPH)}, requires=requires, ensures=ensures,
+                     modifies=LIST_ARRAYS + DICT_ARRAYS + ('cls', 'own_obj', 'own_fld', 'f_entry_points'), allocates=True,
+                     loops={0: LoopSpec(inv)}, call_ghosts={}, props=('C13', 'C09'),
+                     note='labels (is_viable / is_necessary / type) are outside the frame: unchanged'))
+
+
+_install_a = install
+
+
+def install(reg: Registry):
+    _install_a(reg)
+    install_prune(reg)
